@@ -21,10 +21,11 @@ EXTENDS Integers, Sequences, FiniteSets, TLC, Json
 \* ---- content classes ---------------------------------------------------------
 Content == {"out-addr", "out-split", "fee-shift", "arb", "claim", "contract", "revision", "renewal-final",
             "renewal-new", "attest-value", "fnd-addr", "uncovered-out", "second-out"}
-Witness == {"sig-flip", "sig-drop", "sig-extra", "sig-swap", "sig-dup-key", "pre-wrong", "pre-extra", "pre-drop"}
+Witness == {"sig-flip", "sig-drop", "sig-extra", "sig-swap", "sig-dup-key", "pre-wrong", "pre-extra", "pre-drop",
+            "in2-sig-flip", "in2-sig-drop", "in2-sig-zero", "in2-sig-extra"}    \* the witnesses of a second input from the same address
 Keys    == {"other-policy", "other-key", "proposed-keys", "renew-other-keys", "renew-stale-keys", "attest-other-key",
             "fnd-unauthorised", "contract-sig-flip", "renewal-sig-flip", "attest-sig-flip", "timelocked-policy",
-            "relabel-parent", "stale-keys", "alg-swap", "fnd-append"}
+            "relabel-parent", "stale-keys", "alg-swap", "fnd-append", "renewal-swap-new"}
 Tampers == Content \cup Witness \cup Keys
 
 \* ---- shapes ---------------------------------------------------------------------
@@ -50,6 +51,8 @@ Shapes == [
   v1foundation |-> Shape({"fnd-addr", "out-addr"}, {"fnd-addr", "out-addr"}, {"sig"}, FALSE, {"fnd-unauthorised", "other-key"}),
   v2pk       |-> Shape(AllPay, AllPay, {"sig"}, FALSE, {"other-policy", "other-key", "relabel-parent"}),
   \* an output created earlier in the same block (no accumulator proof): the claimed parent must still be the real one
+  \* two inputs from one address: each input carries its own witnesses and each must be checked
+  v2two      |-> Shape(AllPay, AllPay, {"sig", "in2"}, FALSE, {"other-key"}),
   v2ephemeral |-> Shape(AllPay, AllPay, {"sig"}, FALSE, {"other-policy", "other-key", "relabel-parent"}),
   \* two revisions of one contract in one block, the first handing it to a new renter key: the second must be signed
   \* by the keys of the contract as it then stands
@@ -63,7 +66,7 @@ Shapes == [
   v2form     |-> Shape({"contract", "out-addr", "arb"}, {"contract", "out-addr", "arb"}, {"sig"}, FALSE, {"other-key", "contract-sig-flip"}),
   v2rev      |-> Shape({"revision"}, {"revision"}, {}, FALSE, {"proposed-keys", "contract-sig-flip"}),
   v2renew    |-> Shape({"renewal-final", "renewal-new", "out-addr"}, {"renewal-final", "renewal-new", "out-addr"}, {"sig"}, FALSE,
-                       {"renew-other-keys", "renew-stale-keys", "renewal-sig-flip", "contract-sig-flip"}),
+                       {"renew-other-keys", "renew-stale-keys", "renewal-sig-flip", "contract-sig-flip", "renewal-swap-new"}),
   v2attest   |-> Shape({"attest-value", "out-addr"}, {"attest-value", "out-addr"}, {"sig"}, FALSE, {"attest-other-key", "attest-sig-flip"}),
   v2foundation |-> Shape({"fnd-addr", "out-addr"}, {"fnd-addr", "out-addr"}, {"sig"}, FALSE, {"fnd-unauthorised"})
 ]
@@ -75,6 +78,7 @@ Applies(s, t) ==
   \/ t \in Content /\ t \in sh.has
   \/ t \in {"sig-flip", "sig-drop", "sig-extra"} /\ "sig" \in sh.wit
   \/ t = "sig-swap" /\ "sig2" \in sh.wit
+  \/ t \in {"in2-sig-flip", "in2-sig-drop", "in2-sig-zero", "in2-sig-extra"} /\ "in2" \in sh.wit
   \/ t = "sig-dup-key" /\ s = "v1multisig"        \* the second required signature made by the first key once more
   \/ t \in {"pre-wrong", "pre-extra", "pre-drop"} /\ "pre" \in sh.wit
   \/ t = "pre-extra" /\ "sig" \in sh.wit /\ s \in {"v2pk", "v2thresh"}      \* a preimage nobody asked for
